@@ -810,52 +810,117 @@ func init() {
 				}
 				return call, true
 			}
-			n := 0
-			for _, b := range f.Blocks {
-				for _, ins := range b.Instrs {
-					v, ok := ins.(ssa.Value)
-					if !ok {
-						continue
-					}
-					dc, ok := isDecode(v)
-					if !ok {
-						continue
-					}
-					n++
-					which := map[int]string{1: "name", 2: "value"}[n]
-					if which == "" {
-						which = fmt.Sprintf("piece%d", n)
-					}
-					key := "urlenc/" + which
-					arg := dc.Common().Args[len(dc.Common().Args)-1]
-					rc, fed := isPlusReplace(arg)
-					switch {
-					case !fed:
-						// is the output replaced instead?
-						after := false
-						for _, r := range *dc.Referrers() {
-							if rv, ok := r.(ssa.Value); ok {
-								if _, ok := isPlusReplace(rv); ok {
-									after = true
-								}
+			// decode calls in init and in the module functions it calls (a helper may do the decoding)
+			fns := []*ssa.Function{f}
+			seenFn := map[*ssa.Function]bool{f: true}
+			for i := 0; i < len(fns) && i < 16; i++ {
+				for _, b := range fns[i].Blocks {
+					for _, ins := range b.Instrs {
+						if call, ok := ins.(*ssa.Call); ok {
+							if cl := call.Common().StaticCallee(); cl != nil && c.P.InModule(cl) && !seenFn[cl] && cl.Name() != "DecodePercentEncoded" && len(cl.Blocks) > 0 {
+								seenFn[cl] = true
+								fns = append(fns, cl)
 							}
-						}
-						if after {
-							s.Bad(key, c.P.Pos(dc.Pos()), "'+' is replaced in the output of percent-decoding: an escaped plus sign (%2B) is turned into a space")
-						} else {
-							s.Bad(key, c.P.Pos(dc.Pos()), "'+' is never translated to space for this piece")
-						}
-					default:
-						if _, ok := isDecode(rc.Common().Args[0]); ok {
-							s.Bad(key, c.P.Pos(dc.Pos()), "decoded twice")
-						} else {
-							s.OK(key, c.P.Pos(dc.Pos()), "DecodePercentEncoded(ReplaceAll(raw, \"+\", \" \"))")
 						}
 					}
 				}
 			}
-			if n < 2 {
-				s.Bad("urlenc/pieces", c.P.Pos(f.Pos()), fmt.Sprintf("only %d percent-decoding call(s): name and value must both be decoded", n))
+			good := map[*ssa.Call]bool{}       // properly fed decode calls
+			decoder := map[*ssa.Function]bool{} // functions that contain one
+			n := 0
+			for _, g := range fns {
+				for _, b := range g.Blocks {
+					for _, ins := range b.Instrs {
+						v, ok := ins.(ssa.Value)
+						if !ok {
+							continue
+						}
+						dc, ok := isDecode(v)
+						if !ok {
+							continue
+						}
+						n++
+						key := fmt.Sprintf("urlenc/%s/decode#%d", core.FuncName(g), n)
+						arg := dc.Common().Args[len(dc.Common().Args)-1]
+						rc, fed := isPlusReplace(arg)
+						switch {
+						case !fed:
+							after := false
+							for _, r := range *dc.Referrers() {
+								if rv, ok := r.(ssa.Value); ok {
+									if _, ok := isPlusReplace(rv); ok {
+										after = true
+									}
+								}
+							}
+							if after {
+								s.Bad(key, c.P.Pos(dc.Pos()), "'+' is replaced in the output of percent-decoding: an escaped plus sign (%2B) is turned into a space")
+							} else {
+								s.Bad(key, c.P.Pos(dc.Pos()), "'+' is never translated to space for this piece")
+							}
+						default:
+							if _, ok := isDecode(rc.Common().Args[0]); ok {
+								s.Bad(key, c.P.Pos(dc.Pos()), "decoded twice")
+							} else {
+								good[dc] = true
+								decoder[g] = true
+								s.OK(key, c.P.Pos(dc.Pos()), "DecodePercentEncoded(ReplaceAll(raw, \"+\", \" \"))")
+							}
+						}
+					}
+				}
+			}
+			// name and value of every pair come out of such a decode
+			var decoded func(v ssa.Value, d int) bool
+			decoded = func(v ssa.Value, d int) bool {
+				if d > 6 {
+					return false
+				}
+				switch x := v.(type) {
+				case *ssa.Call:
+					if good[x] {
+						return true
+					}
+					if cl := x.Common().StaticCallee(); cl != nil && decoder[cl] && cl != f {
+						return true
+					}
+				case *ssa.Phi:
+					for _, e := range x.Edges {
+						if !decoded(e, d+1) {
+							return false
+						}
+					}
+					return len(x.Edges) > 0
+				case *ssa.Extract:
+					return decoded(x.Tuple, d+1)
+				}
+				return false
+			}
+			for _, fld := range []string{"Name", "Value"} {
+				found, okAll := 0, true
+				var pos token.Pos
+				for _, b := range f.Blocks {
+					for _, ins := range b.Instrs {
+						if st, ok := ins.(*ssa.Store); ok {
+							if _, ok := fieldAddrOf(st.Addr, "NameValuePair:"+fld); ok {
+								found++
+								pos = st.Pos()
+								if !decoded(st.Val, 0) {
+									okAll = false
+								}
+							}
+						}
+					}
+				}
+				key := "urlenc/pair." + fld
+				switch {
+				case found == 0:
+					s.Bad(key, c.P.Pos(f.Pos()), "the "+strings.ToLower(fld)+" of a pair is never set by the form-urlencoded parser")
+				case !okAll:
+					s.Bad(key, c.P.Pos(pos), "the "+strings.ToLower(fld)+" of a pair is not the output of plus-translation followed by percent-decoding")
+				default:
+					s.OK(key, c.P.Pos(pos), "set from DecodePercentEncoded(ReplaceAll(raw, \"+\", \" \"))")
+				}
 			}
 		},
 	})
